@@ -25,4 +25,15 @@ Theorem C05mu_return : forall progs cl c0 sched t c x r,
   C05_post (run (init progs cl c0) sched) t c x r.
 Proof. exact C05_post_reachable. Qed.
 
-Print Assumptions C05mu_return.
+(* non-vacuity: a wait that returns 0 in read mode after a writer made the condition true, and a write-mode wait that
+   returns ETIMEDOUT through mu_try_acquire_after_timeout_or_cancel *)
+Example C05mu_example_true : exists progs sched,
+  let w := run (init progs (fun a => a) 0) sched in
+  last_ret (get w 0%nat) = Some 0 /\ holds w 0%nat R /\ pst w 0%nat 0%nat = true.
+Proof. exact example_wait_returns. Qed.
+Example C05mu_example_timeout : exists progs sched x,
+  let w := run (init progs (fun a => a) 0) sched in
+  mw_returns w 0%nat CNormal x ETIMEDOUT /\ C05_post w 0%nat CNormal x ETIMEDOUT.
+Proof. exact example_timeout_return. Qed.
+
+Print Assumptions C05mu_return. Print Assumptions C05mu_example_true. Print Assumptions C05mu_example_timeout.
